@@ -25,7 +25,7 @@ titles = '\n'.join(f'| {r} | {RULE_TITLES[r]} | {" ".join(p for p in allp if p i
                    for r in sorted(RULE_TITLES, key=lambda x: (int(re.sub(r"\D", "", x) or 0), x)) if any(r in PROPS[p]['rules'] for p in PROPS))
 matrix = open('/verif/seeded/MATRIX.md').read().split('\n', 5)[5]
 n_seeds = sum(1 for l in matrix.splitlines() if l.startswith('| ') and not l.startswith('| seed') and not l.startswith('|---'))
-sec = open('/verif/tools/design_asbuilt.md').read().replace('@TITLES@', titles).replace('@MATRIX@', matrix).replace('@NSEEDS@', str(n_seeds))
+sec = open('/verif/tools/design_asbuilt.md').read().replace('@TITLES@', titles).replace('@MATRIX@', matrix).replace('@NSEEDS@', str(n_seeds)).replace('@NRF@', str(sum(1 for x in __import__('pathlib').Path('/verif/refactors').iterdir() if (x / 'patch.diff').exists())))
 marker = '\n---------------------------------------------------------------------------------------------\n\n## 11. As built'
 if marker in d:
     d = d[:d.index(marker)]
